@@ -22,7 +22,7 @@ Next == \/ b = 0 /\ b' \in 1..NB /\ i' = 0
 World(wj) == [sigs |-> Range(wj.sigs), pre |-> Range(wj.pre), env |-> wj.env]
 
 Report(prop, clause, ev, j, detail) ==
-  PrintT(<<"VERDICT", prop, clause, ev.id, j, detail>>)
+  PrintT("VERDICT " \o ToJson(<<prop, clause, ev.id, j, detail>>))
 
 HashesIn(m) ==
   LET RECURSIVE H(_)
@@ -88,5 +88,5 @@ JudgeEvent(ev) ==
 
 Inv == i > 0 => JudgeEvent(Rec[i])
 
-Post == PrintT(<<"TRACE_DONE", Len(Rec), TLCGet("stats").distinct>>)
+Post == PrintT("TRACE_DONE " \o ToJson(<<Len(Rec), TLCGet("stats").distinct>>))
 =============================================================================
